@@ -83,7 +83,8 @@ void Normalizer::Imperative(SyntaxTree::Node& root) {
         SubstituteTupleVariables(root(child2), newName);
       }
     }
-    SubstituteTupleVariables(root, newName);
+    // Note: declared variables are not visible in the domain of their own declaration, which may reuse their names
+    SubstituteTupleVariables(root, newName, child);
   }
 }
 
@@ -142,9 +143,11 @@ std::string Normalizer::ProcessTupleDeclaration(SyntaxTree::Node& root) {
   return newName;
 }
 
-void Normalizer::SubstituteTupleVariables(SyntaxTree::Node& target, const std::string& newName) {
+void Normalizer::SubstituteTupleVariables(SyntaxTree::Node& target, const std::string& newName, const Index skipChild) {
   for (Index child = 0; child < target.ChildrenCount(); ++child) {
-    if (target(child).token.id != TokenID::ID_LOCAL) {
+    if (child == skipChild) {
+      continue;
+    } else if (target(child).token.id != TokenID::ID_LOCAL) {
       SubstituteTupleVariables(target(child), newName);
     } else {
       const auto& localName = target(child).token.data.ToText();
